@@ -1341,9 +1341,13 @@ impl ser::Serializer for TableSerializer {
 
     fn serialize_struct(
         self,
-        _name: &'static str,
+        name: &'static str,
         len: usize,
     ) -> Result<Self::SerializeStruct, crate::ser::Error> {
+        if name == datetime::NAME {
+            // A date-time is not a table
+            return Err(crate::ser::Error::unsupported_type(Some("datetime")));
+        }
         self.serialize_map(Some(len))
     }
 
